@@ -799,18 +799,23 @@ def r03_18(run, model):
         g = fns.get(name)
         return g is not None and any(True for _ in S.calls(g.body, name))
     n = 0
+    firsts = {b for l in S.find(f.body, "Local") if l.get("init") is not None and ".first()" in S.norm_ws(run.facts.text(UTIL, l["init"]["sp"]))
+              for b in S.pat_bindings(l["pat"])}
     for iff in S.find(f.body, "If"):
         cond = iff["cond"]
-        calls = [c for c in S.walk(cond) if c["k"] == "Call" and re.search(r"self", S.callee_name(c) or "", re.I)]
-        if not calls:
+        # the predicate is called, or handed to any/all as a function value
+        names = [S.callee_name(c) for c in S.walk(cond) if c["k"] == "Call" and re.search(r"self", S.callee_name(c) or "", re.I)]
+        names += [a["segs"][-1] for c in S.walk(cond) if c["k"] == "MethodCall" and c["method"] in ("any", "all") for a in c["args"]
+                  if a["k"] == "Path" and re.search(r"self", a["segs"][-1], re.I)]
+        if not names:
             continue
         ct = S.norm_ws(run.facts.text(UTIL, cond["sp"]))
         msg = S.norm_ws(run.facts.text(UTIL, iff["then"]["sp"]))
-        receiver = "first()" in ct or "receiver must be" in msg
+        receiver = "first()" in ct or "receivermustbe" in msg or bool(S.idents(cond) & firsts)
         if receiver:
             continue  # the receiver itself has to *be* Self
         n += 1
-        name = S.callee_name(calls[0])
+        name = names[0]
         what = "return type" if "ret" in ct else "non-receiver parameter"
         run.ob("R03.18", f"validate_dyn_trait|Self is searched for inside the {what}", structural(name), site(UTIL, iff["sp"]),
                f"test: {ct[:70]}; `{name}` recurses through the type: {structural(name)}",
